@@ -11,7 +11,13 @@
                                                                     vs = the values the text shows, in order)
      Artifact(name), panicking nodes -> ArtifactP f bad / RArt vs or RPanic (the call panicked and the client
                                                                     recovered, as the edit server does)
-   a panic / unparsable output is RFail (never a sequential response). *)
+   a panic / unparsable output is RFail (never a sequential response).
+
+   Round 4: in every third epoch the calls are HTTP requests against the repository's edit server (POST / GET
+   /parameter/value/<id>, GET /producer/value/<name>, GET /zip = one artifact call per producer inside one interval);
+   the stamps then bracket the whole request (justified by LockExtProofs.http_plain_linearizable).  Sequential
+   scripts of one client with long update bursts are emitted compactly as [CSweep] (Graph/LockExt.v [seg]) and
+   judged by the linear replay [legalb] (LockExtProofs.sweep_oracle_iff: it decides linearizability there). *)
 From PF Require Export Graph.Lock Graph.LockExt Check.Common.
 From Coq Require Import List NArith Arith Bool.
 Import ListNotations.
